@@ -47,6 +47,7 @@ package httpserver
 import (
 	"bytes"
 	"encoding/hex"
+	"encoding/json"
 	"fmt"
 	"math"
 	"regexp"
@@ -101,6 +102,12 @@ type c06Cfg struct {
 	OffsetUs int64        `json:"offset_us"`
 }
 
+// c06KV is one header line (an object, so that the minimiser removes whole lines).
+type c06KV struct {
+	N string `json:"n"`
+	V string `json:"v"`
+}
+
 type c06Op struct {
 	GapUs   int64       `json:"gap_us"`
 	NewConn bool        `json:"new_conn"`
@@ -108,7 +115,7 @@ type c06Op struct {
 	Path    string      `json:"path"`
 	Host    string      `json:"host"`
 	Query   [][2]string `json:"query"`
-	Hdr     [][2]string `json:"hdr"`
+	Hdr     []c06KV     `json:"hdr"`
 	SignHdr []string    `json:"sign_hdr"`
 	BodyLen int         `json:"body_len"`
 	BodyBin bool        `json:"body_bin"`
@@ -321,7 +328,7 @@ func c06GenOp(rng *sim.Rand, cfg *c06Cfg) c06Op {
 	op.Query = c06GenQuery(rng)
 	for _, kv := range c06ExtraHdr {
 		if rng.Bool(0.3) {
-			op.Hdr = append(op.Hdr, kv)
+			op.Hdr = append(op.Hdr, c06KV{kv[0], kv[1]})
 		}
 	}
 	if op.Method != "GET" && op.Method != "DELETE" && op.Method != "OPTIONS" || rng.Bool(0.1) {
@@ -341,7 +348,7 @@ func c06GenOp(rng *sim.Rand, cfg *c06Cfg) c06Op {
 	var targets, defects []string
 
 	for _, ru := range cfg.Rules {
-		op.Hdr = append(op.Hdr, [2]string{ru.Name, c06RuleValue(rng, ru, true)})
+		op.Hdr = append(op.Hdr, c06KV{ru.Name, c06RuleValue(rng, ru, true)})
 	}
 	if len(cfg.Rules) > 0 {
 		defects = append(defects, "hdr-bad", "hdr-missing", "hdr-bad-then-good", "hdr-good-then-bad")
@@ -385,10 +392,10 @@ func c06GenOp(rng *sim.Rand, cfg *c06Cfg) c06Op {
 		op.SendSha = rng.Bool(0.3)
 		seen := map[string]bool{}
 		for _, kv := range op.Hdr {
-			n := strings.ToLower(kv[0])
+			n := strings.ToLower(kv.N)
 			isRule := false
 			for _, ru := range cfg.Rules {
-				if strings.EqualFold(ru.Name, kv[0]) {
+				if strings.EqualFold(ru.Name, kv.N) {
 					isRule = true
 				}
 			}
@@ -448,20 +455,20 @@ func c06GenOp(rng *sim.Rand, cfg *c06Cfg) c06Op {
 		switch d {
 		case "hdr-bad", "hdr-missing", "hdr-bad-then-good", "hdr-good-then-bad":
 			ru := cfg.Rules[rng.Intn(len(cfg.Rules))]
-			var keep [][2]string
+			var keep []c06KV
 			for _, kv := range op.Hdr {
-				if !strings.EqualFold(kv[0], ru.Name) {
+				if !strings.EqualFold(kv.N, ru.Name) {
 					keep = append(keep, kv)
 				}
 			}
 			op.Hdr = keep
 			switch d {
 			case "hdr-bad":
-				op.Hdr = append(op.Hdr, [2]string{ru.Name, c06RuleValue(rng, ru, false)})
+				op.Hdr = append(op.Hdr, c06KV{ru.Name, c06RuleValue(rng, ru, false)})
 			case "hdr-bad-then-good":
-				op.Hdr = append(op.Hdr, [2]string{ru.Name, c06RuleValue(rng, ru, false)}, [2]string{ru.Name, c06RuleValue(rng, ru, true)})
+				op.Hdr = append(op.Hdr, c06KV{ru.Name, c06RuleValue(rng, ru, false)}, c06KV{ru.Name, c06RuleValue(rng, ru, true)})
 			case "hdr-good-then-bad":
-				op.Hdr = append(op.Hdr, [2]string{ru.Name, c06RuleValue(rng, ru, true)}, [2]string{ru.Name, c06RuleValue(rng, ru, false)})
+				op.Hdr = append(op.Hdr, c06KV{ru.Name, c06RuleValue(rng, ru, true)}, c06KV{ru.Name, c06RuleValue(rng, ru, false)})
 			}
 		case "jwt-missing":
 			op.JWTMode = ""
@@ -690,7 +697,9 @@ func (c *c06Chain) issue(id string, op *c06Op) *c06Info {
 	}
 	w.hdr = append(w.hdr, [2]string{"Host", host}, [2]string{"X-Verif-Id", id})
 	for _, kv := range op.Hdr {
-		w.hdr = append(w.hdr, kv)
+		if kv.N != "" {
+			w.hdr = append(w.hdr, [2]string{kv.N, kv.V})
+		}
 	}
 	for _, kv := range op.Query {
 		w.query = append(w.query, c06UriEncode(kv[0], false)+"="+c06UriEncode(kv[1], false))
@@ -1686,9 +1695,91 @@ func (c *c06Chain) probes(op *c06Op, info *c06Info, rec *c06Rec, v int, acc bool
 	}
 }
 
+// c06Shrink proposes simpler variants of a failing scenario (the driver
+// itself only deletes array elements).
+func c06Shrink(sci interface{}) []interface{} {
+	sc := sci.(*c06Scenario)
+	var out []interface{}
+	clone := func() *c06Scenario {
+		b, _ := json.Marshal(sc)
+		n := &c06Scenario{}
+		json.Unmarshal(b, n)
+		return n
+	}
+	cfgEdits := []func(*c06Cfg) bool{
+		func(c *c06Cfg) bool { ok := c.Seg != 0; c.Seg = 0; return ok },
+		func(c *c06Cfg) bool { ok := c.OffsetUs != 0; c.OffsetUs = 0; return ok },
+		func(c *c06Cfg) bool { ok := c.DelayUs != 0; c.DelayUs = 0; return ok },
+		func(c *c06Cfg) bool {
+			ok := c.Sig != nil && c.Sig.Aws
+			if ok {
+				c.Sig.Aws = false
+			}
+			return ok
+		},
+		func(c *c06Cfg) bool {
+			ok := c.Sig != nil && c.Sig.TTLs != 0
+			if ok {
+				c.Sig.TTLs = 0
+			}
+			return ok
+		},
+	}
+	for _, e := range cfgEdits {
+		n := clone()
+		if e(&n.Cfg) {
+			out = append(out, n)
+		}
+	}
+	opEdits := []func(*c06Op) bool{
+		func(o *c06Op) bool { ok := o.Path != "/"; o.Path = "/"; return ok },
+		func(o *c06Op) bool { ok := o.Host != "front.example:10080"; o.Host = "front.example:10080"; return ok },
+		func(o *c06Op) bool { ok := o.SkewMs != 0; o.SkewMs = 0; return ok },
+		func(o *c06Op) bool { ok := o.GapUs != 0; o.GapUs = 0; return ok },
+		func(o *c06Op) bool {
+			ok := o.SigMode == "presign"
+			if ok {
+				o.SigMode = "header"
+			}
+			return ok
+		},
+		func(o *c06Op) bool {
+			ok := o.BodyLen > 3
+			if ok {
+				o.BodyLen = 3
+			}
+			return ok
+		},
+		func(o *c06Op) bool { ok := o.BodyBin; o.BodyBin = false; return ok },
+		func(o *c06Op) bool { ok := o.Chunked; o.Chunked = false; return ok },
+		func(o *c06Op) bool { ok := o.Method != "POST"; o.Method = "POST"; return ok },
+		func(o *c06Op) bool { ok := o.HasIat; o.HasIat = false; return ok },
+		func(o *c06Op) bool {
+			ok := o.HasNbf && o.Target != "nbf"
+			if ok {
+				o.HasNbf = false
+			}
+			return ok
+		},
+		func(o *c06Op) bool { ok := o.SendSha; o.SendSha = false; return ok },
+		func(o *c06Op) bool { ok := o.MutN != 0; o.MutN = 0; return ok },
+	}
+	for ci := range sc.Clients {
+		for oi := range sc.Clients[ci].Ops {
+			for _, e := range opEdits {
+				n := clone()
+				if e(&n.Clients[ci].Ops[oi]) {
+					out = append(out, n)
+				}
+			}
+		}
+	}
+	return out
+}
+
 func TestVerifC06(t *testing.T) {
 	hdrv.Main(t, &hdrv.Harness{
-		ID: "C06", Gen: c06Gen, New: func() interface{} { return &c06Scenario{} }, Exec: c06Exec, MaxSteps: 400000,
+		ID: "C06", Gen: c06Gen, New: func() interface{} { return &c06Scenario{} }, Exec: c06Exec, Shrink: c06Shrink, MaxSteps: 400000,
 		Rule: "scenario = Validator configuration (header rules / jwt HS256-512 with cookie or bearer / signature with 1-3 access keys, ttl, excludeBody, default or AWS literals / basicAuth users incl. ':' and non-ASCII; combinations) + wire knobs (segmentation, latency, chunked bodies up to 64 KiB) + 1-3 raw clients x 1-4 requests, each issued by the independent issuer on a skewed clock, delivered at a drawn instant (often exactly on/next to exp, nbf, date±ttl, date+expires) and in ~40% of the cases with exactly one defect (wrong alg/secret/key, expired/not-yet-valid, or one covered element corrupted after signing: method, path, query, signed header, host, body, signature, date, scope, key id, token byte, password byte); " +
 			"non-trivial = at least one request with a definite verdict was let through and one rejected in the same run; distinct = distinct (methods configured, per-request credential kinds/mutation/target/verdict/outcome) signatures",
 		Real: []string{"net/http.Server + pkg/object/httpserver mux (serveHTTP, FetchPayload)", "pkg/object/pipeline (flow, jumpIf)", "pkg/filters/validator (Validator, JWTValidator, BasicAuthValidator in ETCD mode)",
